@@ -351,7 +351,7 @@ func main() {
 		}
 	}
 	nEx := len(words) * len(combos)
-	nRand := c.Pick(6000, 200000)
+	nRand := c.Pick(30000, 1500000)
 	c.Note("exhaustive_part", fmt.Sprintf("all %d words over {S,D,Ea,Ei} up to length %d x %d (flow type, egress, ingress, MaxRetries) combinations = %d cases, correlate-field values from the PRNG; plus %d random words of length 7..30", len(words), maxLen, len(combos), nEx, nRand))
 	from, to := c.Range(nEx + nRand)
 	for k := from; k < to; k++ {
